@@ -675,7 +675,8 @@ int disasm_68000(
           snprintf(instruction, length, "%s.%c %s, d%d", table_68000[n].instr, sizes[size], ea, reg);
           return len;
         default:
-          return -1;
+          strcpy(instruction, "???");
+          return 2;
       }
     }
 
@@ -729,7 +730,7 @@ int disasm_68000(
   }
 
   strcpy(instruction, "???");
-  return -1;
+  return 2;
 }
 
 void list_output_68000(
